@@ -36,7 +36,7 @@ var c07Units = [][]string{
 	// near misses: unknown everywhere
 	{"--Verbose"}, {"--verb"}, {"--verbos"}, {"--verbosee"}, {"--opt"}, {"--ns.ns.opt"}, {"--ns.op=1"}, {"--OPT"}, {"--opt=3"},
 	{"-x"}, {"-vx"}, {"-xv"}, {"-vxy"}, {"-V"}, {"--unk=val"}, {"-x=val"}, {"-è5"}, {"--ns.Opt=1"},
-	{"--ns."}, {"--50%off"}, {"-v%"}, {"-v\x00"}, {"-75"}, {"5"},
+	{"--ns."}, {"--help"}, {"--50%off"}, {"-v%"}, {"-v\x00"}, {"-75"}, {"5"},
 }
 
 func init() {
@@ -55,6 +55,7 @@ func init() {
 		{"handler-error", flags.None, ref.HandlerError},
 		{"fail+passdoubledash", flags.PassDoubleDash, ref.NoHandler},
 		{"ignore+passafternonoption", flags.IgnoreUnknown | flags.PassAfterNonOption, ref.NoHandler},
+		{"fail+helpflag", flags.HelpFlag, ref.NoHandler}, // a help request behind an unknown option does not rescue it
 	}
 	decls := map[flags.Options]*decl.Decl{}
 	body := func(c *explore.Ctx) {
@@ -198,7 +199,7 @@ func init() {
 		Level:      "model_checking",
 		ShardDepth: 5,
 		Body:       body,
-		Rule: "declaration with case-sensitive, namespaced and non-ASCII names and options that exist only in sibling / deeper commands; 9 policies (fail, fail+PassDoubleDash, IgnoreUnknown, IgnoreUnknown+PassAfterNonOption, handler returning the arguments unchanged / dropping the next / consuming all of them (nil slice) / " +
+		Rule: "declaration with case-sensitive, namespaced and non-ASCII names and options that exist only in sibling / deeper commands; 10 policies (fail, fail+PassDoubleDash, fail+HelpFlag (with --help among the tokens), IgnoreUnknown, IgnoreUnknown+PassAfterNonOption, handler returning the arguments unchanged / dropping the next / consuming all of them (nil slice) / " +
 			"inserting a token / returning an error) x {tags, API} x {fresh parser, parser that already parsed a vector selecting add/deep, selecting rm} x every sequence of <= 4 units (3 for the API build, the reused-parser and the argument-rewriting handler variants; thorough: one more for the fail and IgnoreUnknown policies, 4 for the rest) over 12 valid tokens and 24 near misses (incl. the bare namespace prefix of a group whose option has only a short name) (case flips, names containing % or a NUL character, an unknown -<digits> token while an int positional is pending, prefixes, one character dropped/added/changed, " +
 			"namespace missing/doubled/case-changed, unknown character at either end of a cluster, two unknown characters in one cluster, inline arguments, a neighbouring non-ASCII letter); beside that: options of a struct field excluded with no-flag and an option name prefixed with the parser's own Namespace are unknown; oracle = CLM scope tables and handler call log",
 		Assumptions:  []string{"the name passed to the handler for a multi-character cluster is not asserted beyond: it mentions every character of the cluster, from the first unknown one on, that names no option in scope", "values of flags that precede an unknown character inside one cluster are not asserted"},
